@@ -187,6 +187,10 @@ class TreeAnnotator(transformer.Base):
     parent_analyzer = self.current_analyzer
     subgraph = self.graphs[node]
 
+    # Decorator expressions are evaluated in the enclosing function.
+    if parent_analyzer is not None:
+      node.decorator_list = self.visit_block(node.decorator_list)
+
     analyzer = Analyzer(subgraph, self.definition_factory)
     analyzer.visit_forward()
 
